@@ -619,7 +619,7 @@ func (sp *subProcess) NextAction(ctx context.Context, flow Flow) chan IAction {
 		// StartAll cease flow monitor
 		sender := sp.subTracer.RegisterSender()
 		tracer := sp.wr.tracer
-		go sp.ceaseFlowMonitor(tracer)(ctx, sender)
+		go sp.ceaseFlowMonitor(sp.subTracer)(ctx, sender)
 		go sp.run(ctx, tracer)
 	}
 
